@@ -287,6 +287,79 @@ fn run(ws: &Value, out: &mut Map<String, Value>) -> Result<(), Stop> {
     out.insert("at".into(), Value::Object(at));
     out.insert("hints".into(), Value::Object(hints));
     out.insert("queries".into(), json!(nq));
+
+    // "reedit": [[path, new text], ...]: the raw AnalysisHost usage of the repo's own `update_diag` test: after the
+    // analysis above, set_file_content ONLY (no set_root_file), then query again; answers go to "re"
+    let reedits: Vec<(String, String)> = ws
+        .get("reedit")
+        .and_then(|v| v.as_array())
+        .map(|v| v.iter().map(|x| (x[0].as_str().unwrap().to_string(), x[1].as_str().unwrap().to_string())).collect())
+        .unwrap_or_default();
+    if !reedits.is_empty() {
+        let path_ids: BTreeMap<String, FileId> = ws_files.iter().map(|f| (fs.path_str(f), *f)).collect();
+        let id_paths: BTreeMap<FileId, String> = ws_files.iter().map(|f| (*f, fs.path_str(f))).collect();
+        let mut cur_text: BTreeMap<String, String> = BTreeMap::new();
+        for fid in &ws_files {
+            let p = fs.path_str(fid);
+            let text: String = if *fid == root_id { root_text.clone() } else { fs.contents.get(&MemFs::path(&p)).cloned().unwrap_or_default() };
+            cur_text.insert(p, text);
+        }
+        drop(index);
+        drop(a);
+        for (p, t) in &reedits {
+            if let Some(fid) = path_ids.get(p) {
+                host.set_file_content(*fid, Arc::from(t.as_str()));
+                cur_text.insert(p.clone(), t.clone());
+            }
+        }
+        let a2: Analysis = host.analysis();
+        let frp = |r: &FileRange| json!([id_paths.get(&r.file).cloned().unwrap_or_else(|| format!("#{}", r.file.0)), u32::from(r.range.start()), u32::from(r.range.end())]);
+        let mut re = Map::new();
+        let diags2 = q(|| "re:diagnostics".into(), || a2.diagnostics())?;
+        let mut dj2: BTreeMap<String, Vec<Value>> = BTreeMap::new();
+        for (fid, ds) in &diags2 {
+            let p = id_paths.get(fid).cloned().unwrap_or_else(|| format!("#{}", fid.0));
+            dj2.insert(p, ds.iter().map(|d| json!([u32::from(d.location.range.start()), u32::from(d.location.range.end()), d.message.clone()])).collect());
+        }
+        re.insert("diagnostics".into(), json!(dj2));
+        let mut symbols2 = Map::new();
+        let mut hints2 = Map::new();
+        let mut at2 = Map::new();
+        for fid in &ws_files {
+            let p = id_paths[fid].clone();
+            let text = cur_text.get(&p).cloned().unwrap_or_default();
+            let ds = q(|| format!("re:document_symbol {p}"), || a2.document_symbol(*fid))?;
+            symbols2.insert(p.clone(), match ds { Some(v) => Value::Array(v.iter().map(sym).collect()), None => Value::Null });
+            let r = FileRange::new(*fid, TextRange::new(TextSize::from(0), TextSize::from(text.len() as u32)));
+            let h = q(|| format!("re:inlay_hint {p}"), || a2.inlay_hint(r))?;
+            let hj = h.map(|v| Value::Array(v.iter().map(|h| json!([u32::from(h.position), h.label, format!("{:?}", h.kind)])).collect()));
+            hints2.insert(p.clone(), json!({"n": 1, "distinct": [[0, text.len(), hj]]}));
+            let mut runs: Vec<Value> = Vec::new();
+            let mut prev: Option<Value> = None;
+            for o in (0..=text.len()).filter(|i| text.is_char_boundary(*i)).map(|i| i as u32) {
+                let fpos = FilePosition::new(*fid, TextSize::from(o));
+                let def = q(|| format!("re:goto_definition {p}@{o}"), || a2.goto_definition(fpos))?.map(|r| frp(&r));
+                let refs = q(|| format!("re:references {p}@{o}"), || a2.references(fpos))?
+                    .map(|v| Value::Array(v.iter().map(|r| frp(r)).collect()));
+                let mut e = json!({"def": def, "refs": refs});
+                if do_hover {
+                    let h = q(|| format!("re:hover {p}@{o}"), || a2.hover(fpos))?;
+                    e["hover"] = json!(h.is_some());
+                }
+                if prev.as_ref() != Some(&e) {
+                    let mut r = e.clone();
+                    r["o"] = json!(o);
+                    runs.push(r);
+                    prev = Some(e);
+                }
+            }
+            at2.insert(p.clone(), Value::Array(runs));
+        }
+        re.insert("symbols".into(), Value::Object(symbols2));
+        re.insert("hints".into(), Value::Object(hints2));
+        re.insert("at".into(), Value::Object(at2));
+        out.insert("re".into(), Value::Object(re));
+    }
     Ok(())
 }
 
